@@ -722,8 +722,30 @@ def gen_glob(out, parts):
         fn = T.find_def(tree, name, GLOB)
         parts.append(("glob.py:" + name, T.sha(src, fn)))
         b = T.body_nodoc(fn)
-        if not any(seg_is(src, st, "if n is None: n = len(%s)" % cont) for st in b):
+        idx = [i for i, st in enumerate(b) if seg_is(src, st, "if n is None: n = len(%s)" % cont)]
+        if len(idx) != 1:
             T.fail(GLOB, fn, "%s: `if n is None: n = len(%s)` not found" % (name, cont))
+        # statements between the default and the loop may only re-bind n (e.g. `n = min(n, len(X))`)
+        li = [i for i, st in enumerate(b) if isinstance(st, ast.For)]
+        nexpr = "n"
+        for st in b[idx[0] + 1:(li[0] if li else len(b))]:
+            if isinstance(st, ast.Assign) and T.dotted(st.targets[0]) == "n" and isinstance(st.value, ast.Call) \
+                    and T.dotted(st.value.func) in ("min", "max") and len(st.value.args) == 2:
+                def zt(e):
+                    if T.dotted(e) == "n":
+                        return nexpr
+                    if seg_is(src, e, "len(%s)" % cont):
+                        return "len_"
+                    T.fail(GLOB, e, "%s: unsupported operand in the re-binding of n" % name)
+                nexpr = "(Z.%s %s %s)" % (T.dotted(st.value.func), zt(st.value.args[0]), zt(st.value.args[1]))
+            elif isinstance(st, ast.Assign) and T.dotted(st.targets[0]) in ("res", "l") and isinstance(st.value, ast.Constant) \
+                    and st.value.value == 0:
+                continue
+            elif isinstance(st, ast.If) or (isinstance(st, ast.Assign) and T.dotted(st.targets[0]) in ("farea", "cvol")):
+                continue   # selection of the cached attribute (exercised by the correspondence)
+            else:
+                T.fail(GLOB, st, "%s: unexpected statement before the loop" % name)
+        out.append("DefinitionZ %s_n (n len_ : Z) : Z :=\n    %s.\n" % (coq, nexpr))
         lp = find_for(b, lambda s: T.dotted(s.target) == "k", GLOB, "for k in range(...)")
         if not (is_call(lp.iter, "range") and len(lp.iter.args) == 1):
             T.fail(GLOB, lp, "%s: loop is not over range(<count>)" % name)
@@ -833,6 +855,15 @@ def gen_interp(out, parts):
         return isinstance(n, ast.AugAssign) and seg_is(src, n.target, target) and isinstance(n.op, op)
 
     hdr = "(acc x : A)"
+
+    def need_clear(fn, out):
+        """the output attribute is emptied before the first weighting branch (the model starts from zero)"""
+        for st in T.body_nodoc(fn):
+            if isinstance(st, ast.If):
+                break
+            if isinstance(st, ast.Expr) and seg_is(src, st, out + ".clear()"):
+                return
+        T.fail(INTERP, fn, "%s: `%s.clear()` before the weighting branches not found" % (fn.name, out))
     # ---- interpolate_vertices_to_faces
     fn = T.find_def(tree, "interpolate_vertices_to_faces", INTERP)
     parts.append(("interpolate.py:interpolate_vertices_to_faces", T.sha(src, fn)))
@@ -856,6 +887,7 @@ def gen_interp(out, parts):
             ws = sorted(x.value for x in n.args[3].elts)
     if ws != ["angle", "area", "sum", "uniform"]:
         T.fail(INTERP, fn, "interpolate_faces_to_vertices: accepted weights %s" % ws)
+    need_clear(fn, "vattr")
     bu = branch_of(fn, "uniform")
     st = find_stmt(bu, lambda n: assign_to(n, "vattr[v]"), "vattr[v] = sum(...)", fn)
     if not seg_is(src, st.value, "sum([fattr[f] for f in v2f])"):
@@ -891,6 +923,7 @@ def gen_interp(out, parts):
     # ---- average_corners_to_vertices
     fn = T.find_def(tree, "average_corners_to_vertices", INTERP)
     parts.append(("interpolate.py:average_corners_to_vertices", T.sha(src, fn)))
+    need_clear(fn, "vattr")
     bb = branch_of(fn, "uniform")
     st = find_stmt(bb, lambda n: assign_to(n, "vattr[v]"), "vattr[v] = ...", fn)
     out.append("Definition g_c2v_uniform_acc %s : A :=\n    %s.\n" % (hdr, atr(st.value, {"vattr[v]": ("a", "acc"), "cattr[c]": ("a", "x")})[1]))
@@ -915,6 +948,7 @@ def gen_interp(out, parts):
     # ---- average_corners_to_faces
     fn = T.find_def(tree, "average_corners_to_faces", INTERP)
     parts.append(("interpolate.py:average_corners_to_faces", T.sha(src, fn)))
+    need_clear(fn, "fattr")
     bb = branch_of(fn, "uniform")
     st = find_stmt(bb, lambda n: assign_to(n, "fattr[F]"), "fattr[F] = ...", fn)
     out.append("Definition g_c2f_uniform_acc (acc x : A) (n : Z) : A :=\n    %s.\n"
